@@ -180,6 +180,21 @@ def family_order(tier, seed, n=None):
         ops = [{"op": "construct", "o": "o1"}, {"op": "probe", "call": wcall(), "paths": ["o1.e", "o1.b"]},
                {"op": "explore", "call": mcall(), "paths": ["o1.e", "o1.b"], "uniform": ["o1." + first], "max_paths": mp}]
         out.append({"id": "O20/enum/%d" % t, "world": world, "ops": ops, "tags": []})
+    # (e) an ordering stage of MORE than four variables (four are pinned by constraints, one is free): each of them is decided
+    #     in its stage, whichever subset the randomizer happens to pick first
+    for t in range(1 if tier == "quick" else 3):
+        fields = [fld("f%d" % i, 1, False) for i in range(5)] + [fld("b", 2, False)]
+        free = [4, 0, 2][t]
+        body = [E(B("eq", F("f%d" % i), lit((i + t) % 2))) for i in range(5) if i != free] + \
+               [{"k": "imp", "c": B("eq", F("f%d" % free), lit(0)), "body": [E(B("eq", F("b"), lit(0)))]},
+                # a trivially true relation over all six: it only puts them into one set of related variables
+                E(B("ge", B("or", B("or", B("or", F("f0"), F("f1")), B("or", F("f2"), F("f3"))), B("or", F("f4"), F("b"))), lit(0))),
+                {"k": "order", "a": ["f%d" % i for i in range(5)], "b": ["b"]}]
+        world = one(fields, [blk("c1", body)])
+        paths = ["o1.f%d" % i for i in range(5)] + ["o1.b"]
+        ops = [{"op": "construct", "o": "o1"},
+               {"op": "explore", "call": mcall(), "paths": paths, "uniform": ["o1.f%d" % free], "max_paths": 40000}]
+        out.append({"id": "O20/widestage/%d" % t, "world": world, "ops": ops, "tags": []})
     # program pairs that agree on Feasible(a) and differ only in how many b accompany each a
     for t in range(2 if tier == "quick" else 8):
         rnd = random.Random(2021 + t)
@@ -257,4 +272,15 @@ def family_starve(tier, seed, n=None):
             ops.append({"op": "call", "call": mcall()})
             ops.append({"op": "explore", "call": mcall(), "paths": ["o1.a", "o1.b"], "max_paths": 4000 if tier == "quick" else 40000})
         out.append({"id": "S14/%s/%s/%d" % (kind, "core" if core else "s%d" % seed, t), "world": world, "ops": ops, "tags": []})
+    # a field that shares constraints with ORDERED fields but is named in no solve_order: still ranges over all its feasible values
+    for t in range(2 if tier == "quick" else 6):
+        rnd = random.Random(1450 + t)
+        fields = [fld("a", 1, False), fld("b", 2, False), fld("d", 2, False)]
+        body = [{"k": "imp", "c": B("eq", F("a"), lit(0)), "body": [E(B("eq", F("b"), lit(rnd.randrange(4))))]},
+                E(B(rnd.choice(["le", "ne", "ge"]), F("d"), F("b"))) if t % 2 == 0 else E(B("ne", B("add", F("d"), F("a")), F("b"))),
+                {"k": "order", "a": ["a"], "b": ["b"]}]
+        world = one(fields, [blk("c1", body)])
+        ops = [{"op": "construct", "o": "o1"}, {"op": "call", "call": mcall()},
+               {"op": "explore", "call": mcall(), "paths": ["o1.a", "o1.b", "o1.d"], "uniform": ["o1.a"], "max_paths": 6000 if tier == "quick" else 60000}]
+        out.append({"id": "S14/order_rest/%d" % t, "world": world, "ops": ops, "tags": []})
     return out
